@@ -221,12 +221,16 @@ theorem seq_step : (step c s i).1.expSeq = (ghostStep s i g).accepted.length % 8
 theorem no_fixreset : (c.fix && resetCond s i) = false := by
   simp [resetCond, e.en, e.norst]
 
+theorem no_abort : (c.abort && resetCond s i) = false := by
+  simp [resetCond, e.en, e.norst]
+
 theorem busy_step (hb : (step c s i).1.gen ≠ .idle) :
     done s i = false ∧ (step c s i).1.fsm = s.fsm ∧ s.fsm ≠ .dispatch := by
   have h0 := h.hgen0
   have nf := no_fixreset h e
-  simp only [step_gen, step_fsm, genNext, fsmNext, nf, done, generate] at hb ⊢
-  clear nf h e
+  have na := no_abort h e
+  simp only [step_gen, step_fsm, genNext, fsmNext, nf, na, done, generate, Bool.false_eq_true, if_false] at hb ⊢
+  clear nf na h e
   rcases s with ⟨rx, expSeq, nextCredit, nextAck, acks, cti, bf, rp, wp, bufs, lbad, lrty, keepalive, lxu,
     lastEnable, ignore, fsm, gen, gCmd, gSub⟩
   rcases i with ⟨sink, srcReady, enable, usbReset, qReady, retryReceived, retryRequired, keepaliveRequired, rejectPower⟩
@@ -238,8 +242,9 @@ theorem gen_step : ((step c s i).1.fsm = .dispatch → (step c s i).1.gen = .idl
   constructor
   · have h0 := h.hgen0
     have nf := no_fixreset h e
-    simp only [step_gen, step_fsm, genNext, fsmNext, nf, done, generate, dispatchNext]
-    clear nf h e
+    have na := no_abort h e
+    simp only [step_gen, step_fsm, genNext, fsmNext, nf, na, done, generate, dispatchNext, Bool.false_eq_true, if_false]
+    clear nf na h e
     rcases s with ⟨rx, expSeq, nextCredit, nextAck, acks, cti, bf, rp, wp, bufs, lbad, lrty, keepalive, lxu,
       lastEnable, ignore, fsm, gen, gCmd, gSub⟩
     rcases i with ⟨sink, srcReady, enable, usbReset, qReady, retryReceived, retryRequired, keepaliveRequired, rejectPower⟩
@@ -254,7 +259,8 @@ theorem gen_step : ((step c s i).1.fsm = .dispatch → (step c s i).1.gen = .idl
     have hs : genSub (step c s i).1 = genSub s := by
       simp only [genSub, hf, step_nextAck, step_nextCredit, no_reset e, hlg, hlc, Bool.false_eq_true, if_false]
     have hc : genCmd c (step c s i).1 = genCmd c s := by simp only [genCmd, hf]
-    rw [hs, hc, step_gCmd, step_gSub]
+    rw [hs, hc, step_gCmd, step_gSub, no_abort h e]
+    simp only [Bool.false_eq_true, if_false]
     have hlt : genSub s % 16 = genSub s := by
       simp only [genSub]; split <;> omega
     by_cases hi : s.gen = .idle
@@ -593,9 +599,9 @@ def demo : List In :=
 
 example : hdrA.crcOk = true ∧ hdrA.seq = 0 ∧ hdrBad.crc16Ok = false := by decide +kernel
 
-example : EnvOk ⟨true, false⟩ init Ghost.init demo := by decide +kernel
+example : EnvOk ⟨true, false, false⟩ init Ghost.init demo := by decide +kernel
 
-example : let r := runG ⟨true, false⟩ init Ghost.init demo
+example : let r := runG ⟨true, false, false⟩ init Ghost.init demo
     r.2.accepted = [hdrA] ∧ r.2.delivered = [hdrA] ∧ r.2.lgoods = [7, 0] ∧ r.2.lcrds = [0, 1, 2, 3, 0] ∧
     r.2.lbads = 1 ∧ r.2.bads = 1 := by decide +kernel
 
